@@ -104,15 +104,20 @@ def register(reg):
     reg.specfun('ATTR', [('o', 'any'), ('name', 'str')], 'any', doc="getattr(o, name, None)")
     reg.contract('getattr/3', assumed=True, pure=True, params={'transformer': 'any', 'terminal': 'TerminalDef'}, ghost_params=['transformer', 'terminal'], returns='any',
                  ensures=['result == ATTR(transformer, terminal.name)'])
+    reg.specfun('VISITTOK', [('t', 'any')], 'bool', doc="the transformer visits tokens: getattr(t, '__visit_tokens__', True)")
+    reg.contract('getattr/visit_tokens', assumed=True, pure=True, params={'transformer': 'any'}, ghost_params=['transformer'], returns='bool', ensures=['result == VISITTOK(transformer)'])
     reg.contract('lark.parser_frontends:_get_lexer_callbacks', serves=S,
                  params={'transformer': 'any', 'terminals': 'list[TerminalDef]'}, returns='dict[str,any]',
                  types={'result': 'dict[str,any]'},
                  ensures=['fresh(result)',
-                          # exactly the terminals the transformer has an attribute for - whatever their name looks like
-                          'all(implies(ATTR(transformer, terminals[k].name) is not None, terminals[k].name in result and result[terminals[k].name] == ATTR(transformer, terminals[k].name)) for k in range(0, len(terminals)))',
+                          # a transformer that does not visit tokens (visit_tokens=False) gets no terminal callbacks: post-hoc it would not call them either
+                          'implies(not VISITTOK(transformer), all(not (n in result) for n in STR))',
+                          # otherwise exactly the terminals the transformer has an attribute for - whatever their name looks like
+                          'implies(VISITTOK(transformer), all(implies(ATTR(transformer, terminals[k].name) is not None, terminals[k].name in result and result[terminals[k].name] == ATTR(transformer, terminals[k].name)) for k in range(0, len(terminals))))',
                           'all(implies(n in result, any(terminals[k].name == n and ATTR(transformer, n) is not None for k in range(0, len(terminals)))) for n in STR)'],
                  loops={0: dict(inv=['fresh(result)',
                                      'all(implies(ATTR(transformer, terminals[k].name) is not None, terminals[k].name in result and result[terminals[k].name] == ATTR(transformer, terminals[k].name)) for k in range(0, _i0))',
                                      'all(implies(n in result, any(terminals[k].name == n and ATTR(transformer, n) is not None for k in range(0, _i0))) for n in STR)'])},
-                 names={'expr:getattr(transformer, terminal.name, None)': ('contract', 'getattr/3')},
+                 names={'expr:getattr(transformer, terminal.name, None)': ('contract', 'getattr/3'),
+                        "expr:getattr(transformer, '__visit_tokens__', True)": ('contract', 'getattr/visit_tokens')},
                  replay=_replay)
